@@ -943,3 +943,22 @@ example :
   decide
 
 end TmVerif
+
+namespace TmVerif
+
+/-! Non-vacuity of `C08_partial` and its clauses (iii) and (ii), on the unit-test layout
+`absorbing_double_press_test_1` extended by a plain mapping: the layout is inside H1 ∧ H2; after
+LEFTSHIFT↓ A↓ A↑ a FRESH obligation (LEFTSHIFT, A) is pending, the re-press of A fires the same
+mapping again (clause iii), and a press of C (no mapping) lifts LEFTSHIFT before C goes down
+(clause ii). -/
+example :
+    let L : Layout := [⟨[42, 30], [42, 30], Repeat.normal, [42]⟩, ⟨[42, 48], [42, 48], Repeat.normal, [42]⟩, ⟨[46], [45], Repeat.normal, []⟩]
+    let y := Sys8.run L Sys8.init [Event.pressed 42, Event.pressed 30, Event.released 30]
+    layoutH1 L = true ∧ layoutH2 L = true ∧
+    (y.obls.map fun ob => (ob.M, ob.t, ob.fresh)) = [(42, 30, true)] ∧
+    findMapping L y.x.s 30 = some ⟨[42, 30], [42, 30], Repeat.normal, [42]⟩ ∧
+    (step L y.x.s (Event.pressed 46)).2.events = [Event.released 42, Event.pressed 45] ∧
+    monC08 (y.x.obs L (Event.pressed 30)) y.obls = [] ∧ monC08 (y.x.obs L (Event.pressed 46)) y.obls = [] := by
+  decide
+
+end TmVerif
